@@ -388,7 +388,7 @@ def _strategy():
 
 
 def run(ctx):
-    ctx.hyp(_strategy, check_case, max_examples=ctx.pick(3000, 50000))
+    ctx.hyp(_strategy, check_case, max_examples=ctx.pick(2500, 50000))
 
 
 def replay(case):
